@@ -35,13 +35,6 @@ def admissibleHistD : List (Key × Val) → List DStep → Bool
   | _, [] => true
   | kvs, s :: rest => admissibleD s && admissibleHistD (specD kvs s).st rest
 
-def goodB (xs : List Val) : Bool := xs.all (fun x => !x.isMissing && missingFree x)
-
-theorem good_of_goodB {xs : List Val} (h : goodB xs = true) : Good xs := by
-  intro x hx
-  simp only [goodB, List.all_eq_true, Bool.and_eq_true, Bool.not_eq_true'] at h
-  exact h x hx
-
 /-! ## Lists -/
 
 /-- FULL STATEMENT (not provable, see the counterexamples): every step of `pg.List` is the step of a
@@ -138,6 +131,12 @@ theorem C02_slice_length (xs : List Val) (s : Slice) (a b c : Int) (ys : List Va
     (h : sliceIndices s xs.length = .ok (a, b, c)) (hy : PyList.getSlice xs s = .ok ys) :
     ys.length = (pyRange a b c).length :=
   getSlice_length h hy
+
+/-- The slice size used by both sides, `len(range(start, stop, step))`, is CPython's closed form
+`(stop - start - 1) / step + 1` resp. `(start - stop - 1) / (-step) + 1` (`PySlice_AdjustIndices`). -/
+theorem C02_slice_length_closed_form (a b c : Int) (hc : c ≠ 0) :
+    ((pyRange a b c).length : Int) = sliceLen a b c :=
+  pyRange_length_closed a b c hc
 
 /-- A zero step is a `ValueError` for read, assignment and deletion alike, on both sides. -/
 theorem C02_slice_zero_step (xs vs : List Val) (a b : Option Int) (nt : Bool) :
